@@ -206,10 +206,28 @@ func decoderSet(w *World) map[*ssa.Function]bool {
 // package) neither reads nor writes package-level variables - no cache of earlier results, no table that other
 // messages have written to. (Objects handed out of a shared cache are shared with whoever edits them: a stamp written
 // into one message's Via shows up in the next message with the same text.)
-func c14DecoderPurity(c *Ctx) {
+func c14DecoderPurity(c *Ctx) { c14DecoderPurityFrom(c) }
+
+// c14DecoderPurityFrom restricts the rule to the decoders below the named roots (all decoders when none is named): under
+// C13 the Route a request pops, under C07/C02 the Via a stamp is written into or a response pops, must be objects of
+// that message alone, which a decoder answering from package-level state cannot promise.
+func c14DecoderPurityFrom(c *Ctx, roots ...string) {
 	w := c.w
 	rule := "pure-capture"
 	set := decoderSet(w)
+	if len(roots) > 0 {
+		var rf []*ssa.Function
+		for _, r := range roots {
+			if fn := w.Fn(r); fn != nil {
+				rf = append(rf, fn)
+			}
+		}
+		if len(rf) == 0 {
+			c.undecided(rule, "decoder-state/roots", "-", "none of the decoders "+strings.Join(roots, ", ")+" found")
+			return
+		}
+		set = w.reachableFrom(rf, false)
+	}
 	n := 0
 	var fns []*ssa.Function
 	for fn := range set {
@@ -241,7 +259,11 @@ func c14DecoderPurity(c *Ctx) {
 		})
 		c.check(bad == "", rule, "decoder-state/"+w.fname(fn), w.pos(fn.Pos()), "uses no package-level state", "decoder "+w.fname(fn)+" uses the package-level variable "+bad+" (at "+where+"): its result is no longer a function of the text alone - a cache of decoded values hands the same objects (or objects sharing storage) to several messages, and an edit made for one message shows in the next one that carries the same text")
 	}
-	c.check(n >= 10, rule, "decoder-state/floor", "-", "decoders found", fmt.Sprintf("only %d decoder functions found", n))
+	if len(roots) == 0 {
+		c.check(n >= 10, rule, "decoder-state/floor", "-", "decoders found", fmt.Sprintf("only %d decoder functions found", n))
+	} else {
+		c.check(n >= 1, rule, "decoder-state/floor", "-", "decoders found", "no decoder function found below "+strings.Join(roots, ", "))
+	}
 }
 
 // readOnlyGlobal: package-level variable g is a table: assigned only by the package initialiser, and what is loaded from
